@@ -184,6 +184,8 @@ def check_run_assertions(prog):
     f = prog.fn(EV + "obj::ObjValue::run_assertions")
     if f is None:
         return [bad(RULE, key, "", "run_assertions not found")]
+    for a in ("obj::start_asserting", "obj::finish_asserting"):
+        prog.fn(EV + a)          # registers the two helpers as anchors: a re-homed helper is analysed under this name
     starts = [(b, t) for b, t in f.calls() if (t.get("res") or "") == EV + "obj::start_asserting" and not f.is_cleanup(b)]
     fins = {b for b, t in f.calls() if (t.get("res") or "") == EV + "obj::finish_asserting" and not f.is_cleanup(b)}
     if len(starts) != 1:
